@@ -404,6 +404,9 @@ func (x *Exec) lookup(name string, env *SpecEnv) (Val, error) {
 			}
 			return x.lookup(name[7:], &n)
 		}
+		if v, err := x.lookup(name[7:], env); err == nil {
+			return v, nil
+		}
 	}
 	if v, ok := env.vars["$local:"+name]; ok {
 		return v, nil
